@@ -1,6 +1,7 @@
 package mathx
 
 import (
+	"math"
 	"math/rand"
 	"sync"
 	"time"
@@ -31,15 +32,26 @@ func NewUnstable(deviation float64) Unstable {
 // AroundDuration 根据给定的基准时长和公差生成一个随机周边时长，± u.deviation。
 func (u Unstable) AroundDuration(base time.Duration) time.Duration {
 	u.lock.Lock()
-	val := time.Duration((1 + u.deviation - 2*u.deviation*u.r.Float64()) * float64(base))
+	val := (1 + u.deviation - 2*u.deviation*u.r.Float64()) * float64(base)
 	u.lock.Unlock()
-	return val
+	if val >= math.MaxInt64 {
+		// 基准值接近上限时，上浮后的结果已超出 int64 的表示范围
+		return math.MaxInt64
+	} else if val <= math.MinInt64 {
+		return math.MinInt64
+	}
+	return time.Duration(val)
 }
 
 // AroundInt 根据给定的基准数值和公差生成一个随机的周边数值，± u.deviation。
 func (u Unstable) AroundInt(base int64) int64 {
 	u.lock.Lock()
-	val := int64((1 + u.deviation - 2*u.deviation*u.r.Float64()) * float64(base))
+	val := (1 + u.deviation - 2*u.deviation*u.r.Float64()) * float64(base)
 	u.lock.Unlock()
-	return val
+	if val >= math.MaxInt64 {
+		return math.MaxInt64
+	} else if val <= math.MinInt64 {
+		return math.MinInt64
+	}
+	return int64(val)
 }
